@@ -60,7 +60,11 @@ def main():
             undecided.append("%s: %s" % (r["qual"], r["unsupported"]))
         fuc[r["qual"]] = {"sha256_16": src.sha(r["qual"]), "paths": r["paths"], "exits": r["exits"]}
         for o in r["results"]:
-            if pid in o["tags"] or r["qual"] in fall or any(a in o["tags"] for a in PM.TAG_ALSO.get(pid, [])):
+            # functions_all: every obligation of the function counts for this property, except clauses that are
+            # only about the *content* of usage records (C15/C16), which no other property speaks about
+            if pid in o["tags"] or (r["qual"] in fall and not (o["tags"] and set(o["tags"]) <= PM.USAGE_CONTENT_ONLY)
+                                    and (r["qual"], o.get("kind")) not in PM.NARROW_ATTRIBUTION) \
+                    or any(a in o["tags"] for a in PM.TAG_ALSO.get(pid, [])):
                 o["function"] = r["qual"]
                 obls.append(o)
     # structural checks on the ASTs (census) and pure lemmas over the contracts
@@ -69,8 +73,15 @@ def main():
         for name, ok, detail in fn(src):
             extra.append({"name": name, "norm": name, "status": "discharged" if ok else "failed", "backend": "ast-census",
                           "secs": 0.0, "tags": [pid], "kind": "census", "detail": detail, "function": "package"})
+    from pvc.values import Unsupported
     for fn in spec.get("lemmas", []):
-        for o in fn(timeout_ms):
+        try:
+            lem = fn(timeout_ms)
+        except Unsupported as e_:
+            # (e.g. database.py uses a construct the file-system interpreter does not model)
+            undecided.append("%s: %s" % (getattr(fn, "__name__", "lemma"), e_))
+            lem = []
+        for o in lem:
             o.setdefault("tags", [pid])
             o.setdefault("kind", "lemma")
             o.setdefault("function", "contracts")
@@ -253,4 +264,13 @@ def main():
 
 
 if __name__ == "__main__":
-    sys.exit(main())
+    try:
+        rc_ = main()
+    except SystemExit:
+        raise
+    except BaseException as e_:      # a crash of the checker is never a verdict about /repo (exit 3, no VIOLATION line)
+        import traceback
+        traceback.print_exc()
+        print("CHECKER-ERROR %s: %s" % (type(e_).__name__, str(e_)[:300]))
+        rc_ = 3
+    sys.exit(rc_)
